@@ -15,7 +15,7 @@ from . import common
 
 SPEC_LEVELS = [10, 20, 30, 5, 40, 25, 35, 30, 10]
 MUTATIONS = {
-    'ugrid': ['no_conventions', 'conventions_other', 'topology_dim_1', 'no_mesh_var', 'no_cf_role'],
+    'ugrid': ['no_conventions', 'conventions_other', 'topology_dim_1', 'no_topology_dim', 'topology_dim_3', 'no_mesh_var', 'no_cf_role'],
     'shoc_simple': ['no_ems_version', 'rename_dim'],
     'shoc_standard': ['rename_coord_left', 'drop_coord_grid'],
     'cf1d': ['strip_coord_attrs'],
@@ -258,6 +258,10 @@ def _build_dataset(desc):
             ds.attrs['Conventions'] = 'CF-1.6'
         elif mut == 'topology_dim_1':
             ds['Mesh2'].attrs['topology_dimension'] = 1
+        elif mut == 'no_topology_dim':
+            ds['Mesh2'].attrs.pop('topology_dimension', None)
+        elif mut == 'topology_dim_3':
+            ds['Mesh2'].attrs['topology_dimension'] = 3
         elif mut == 'no_mesh_var':
             ds = ds.drop_vars('Mesh2')
         elif mut == 'no_cf_role':
@@ -399,7 +403,7 @@ def _bind_lifetime(ctx, dataset_descs, lt):
                 fail('named-case', f'valid {conv} dataset detected as {name}, statement requires {want}')
             if conv in ('cf1d', 'cf2d') and name != want:
                 fail('named-case', f'valid {conv} dataset detected as {name}, expected {want}')
-        if conv == 'ugrid' and d['mut'] in ('no_conventions', 'conventions_other', 'topology_dim_1', 'no_mesh_var', 'no_cf_role') and name == 'UGrid':
+        if conv == 'ugrid' and d['mut'] in MUTATIONS['ugrid'] and name == 'UGrid':
             fail('named-case', f'UGRID near-miss ({d["mut"]}) still detected as UGrid')
         if conv == 'shoc_simple' and d['mut'] in ('no_ems_version', 'rename_dim') and name == 'ShocSimple':
             fail('named-case', f'SHOC simple near-miss ({d["mut"]}) still detected as ShocSimple')
